@@ -25,7 +25,8 @@ def _ctor_kwargs(cls, key, values, data_obj):
 
 
 class CodecUnit(Unit):
-    properties = ("C02",)
+    properties = ("C02", "C09")
+    frame_check = True
 
     def __init__(self, cls):
         self.cls = cls
